@@ -1,6 +1,7 @@
 import QV.C02.LemmasTop
 import QV.C02.LemmasDelay
 import QV.C02.LemmasWave
+import QV.C02.LemmasCall
 /-!
 C02 lemmas, part 6 (core Lean only): the proved subset `provedKind` — dispatch of the per-kind lemmas, "prints
 on one line", "prints without error".
@@ -15,6 +16,22 @@ theorem rt_of_provedKind (F : NumFmt) (d : Nat) (i : Instruction) (hp : parsedIn
     RT F d i (canonInstr i) := by
   cases i with
   | capture a => exact rt_capture F d a hp hn hd
+  | call c =>
+    have hok : c.arguments.all (callArgOkP F) = true := by
+      simp only [parsedInstr] at hp
+      simp only [numTokInstr] at hn
+      rw [List.all_eq_true] at hp hn ⊢
+      intro a ha
+      have h1 := hp a ha
+      have h2 := hn a ha
+      cases a with
+      | immediate z =>
+        simp only [callArgOk, Bool.and_eq_true] at h1
+        simp only at h2
+        simp [callArgOkP, immOk, h1.1, h1.2, h2]
+      | _ => rfl
+    have := rt_call F d c hok (by simpa [provedKind] using hk)
+    simpa [canonInstr] using this
   | pulse a => exact rt_pulse F d a hp hn hd
   | arithmetic a => exact rt_arithmetic F d a hp
   | binaryLogic a => exact rt_binaryLogic F d a hp
@@ -204,6 +221,30 @@ theorem noNL_of_provedKind (F : NumFmt) (i : Instruction) (hk : provedKind i = t
     simp only [numTokInstr] at hn
     by_cases hb : a.blocking = true <;>
       simp [toks, cmd, hb, nl_frame, nl_invocation F _ hn, nl_memRefToks]
+  | call c =>
+    simp only [numTokInstr] at hn
+    have hargs : ∀ (args : List UnresolvedCallArgument) (prev : Option UnresolvedCallArgument),
+        (args.all fun a => match a with | .immediate z => numTokOkAt F z | _ => true) = true →
+        Token.newLine ∉ callArgsToks F prev args := by
+      intro args
+      induction args with
+      | nil => intro _ _; simp [callArgsToks]
+      | cons a args ih =>
+        intro prev hall
+        simp only [List.all_cons, Bool.and_eq_true] at hall
+        have hz : Token.newLine ∉ callZeroPrefix prev a := by
+          unfold callZeroPrefix
+          split
+          · split <;> simp
+          · simp
+        have ha : Token.newLine ∉ callArgToks F a := by
+          cases a with
+          | identifier s => simp [callArgToks, identTok]
+          | memoryReference r => simp [callArgToks, nl_memRefToks]
+          | immediate z => exact nl_complexToks F z hall.1
+        simp only [callArgsToks, List.mem_append, not_or]
+        exact ⟨⟨hz, ha⟩, ih _ hall.2⟩
+    simp [toks, cmd, identTok, hargs _ _ hn]
   | pulse a =>
     simp only [numTokInstr] at hn
     by_cases hb : a.blocking = true <;>
